@@ -9,6 +9,7 @@
 mod env;
 mod mapdrv;
 mod scen;
+mod setdrv;
 mod trace;
 
 use std::process::exit;
